@@ -100,9 +100,11 @@ CLAIMED = {
              'thorough). MC_Return: entry + standard return (SUBS PC,LR / RFE / LDM^, ARM and Thumb handlers) is the identity on '
              'the interrupted program. Conformance: the real cpsr/spsr_write_by_instr on the matrix, MSR/MRS/CPS/SETEND/hints/'
              'SUBS PC,LR/RFE/SRS/LDM^/STM^/SVC/SMC words in every mode and three extension configurations, and entry+return '
-             'programs, all judged by TLC on the full state.',
-        note='coprocessor access-control gating (CDP/MCR/MRC/LDC/STC) is not specified: those words are covered only by the '
-             'envelope properties; ERET A1 and banked MRS/MSR are documented as not implemented by the emulator; HSR syndromes '
+             'programs, all judged by TLC on the full state. Coprocessor gating: CDP/MCR/MRC/MCRR/MRRC/LDC/STC (A1/A2/T1/T2) x '
+             'coprocessor number x every CPACR.cp<n> value x NSACR.cp<n> x security state x mode: TLC requires exactly the '
+             'Undefined Instruction entry when access control denies and the not-implemented coprocessor hook otherwise.',
+        note='coprocessor gating is specified for generic coprocessors (CP0-9, 12, 13); CP10/11 (VFP / Advanced SIMD), CP14/CP15 '
+             'system accesses and HCPTR traps are envelope-only; ERET A1 and banked MRS/MSR are documented as not implemented by the emulator; HSR syndromes '
              'are don\'t-care.',
         technique='TLC model checking of the PSR-write and return specs + TLC trace validation of API calls and instructions',
         ref='DESIGN.md §4 C12'),
